@@ -13,6 +13,9 @@ Definition entries : list (Z * (list Z -> list Z)) :=
     (6, entry_documented_ok);
     (7, entry_unsubscribe_norm);
     (8, entry_spec_publish_ok);
-    (9, entry_unsub_documented_ok) ].
+    (9, entry_unsub_documented_ok);
+    (10, entry_strings_all);
+    (11, entry_publish_both);
+    (12, entry_subscribe_both) ].
 
 Extraction "model_validate.ml" entries.
